@@ -271,3 +271,301 @@ func isIntLocal(fn *ssa.Function, name string) bool {
 	}
 	return false
 }
+
+// ---------------------------------------------------------------------------
+// Renamed locals.
+//
+// Loop clauses name locals of the function.  After a pure renaming of locals
+// the clauses no longer bind and the function would be UNDECIDED.  The same
+// argument as above applies - any clauses that discharge every obligation
+// prove the contract - so the checker tries to read each unknown name as one
+// of the function's locals that no clause mentions, and accepts an assignment
+// only if the renamed clauses bind and discharge EVERY obligation.
+
+var unknownNameRe = regexp.MustCompile(`unknown name \\?"([A-Za-z_][A-Za-z0-9_]*)\\?"`)
+
+func renameClauses(cs []Clause, m map[string]string) []Clause {
+	out := make([]Clause, len(cs))
+	for i, c := range cs {
+		out[i] = c
+		e := c.E
+		for from, to := range m {
+			e = substIdent(e, from, &EIdent{Name: "\x00" + to})
+		}
+		out[i].E = unmark(e)
+	}
+	return out
+}
+
+// unmark removes the marker that keeps simultaneous renamings from chaining.
+func unmark(e Expr) Expr {
+	switch x := e.(type) {
+	case *EIdent:
+		if strings.HasPrefix(x.Name, "\x00") {
+			return &EIdent{Name: x.Name[1:]}
+		}
+		return x
+	case *EUnary:
+		return &EUnary{Op: x.Op, X: unmark(x.X)}
+	case *EBinary:
+		return &EBinary{Op: x.Op, L: unmark(x.L), R: unmark(x.R)}
+	case *ECall:
+		args := make([]Expr, len(x.Args))
+		for i, a := range x.Args {
+			args[i] = unmark(a)
+		}
+		return &ECall{Fn: x.Fn, Args: args}
+	case *EIndex:
+		return &EIndex{X: unmark(x.X), I: unmark(x.I)}
+	case *ESlice:
+		n := &ESlice{X: unmark(x.X)}
+		if x.Lo != nil {
+			n.Lo = unmark(x.Lo)
+		}
+		if x.Hi != nil {
+			n.Hi = unmark(x.Hi)
+		}
+		return n
+	case *EField:
+		return &EField{X: unmark(x.X), Name: x.Name}
+	case *EQuant:
+		n := &EQuant{Forall: x.Forall, Var: x.Var, Body: unmark(x.Body)}
+		if x.Lo != nil {
+			n.Lo = unmark(x.Lo)
+		}
+		if x.Hi != nil {
+			n.Hi = unmark(x.Hi)
+		}
+		return n
+	case *ECond:
+		n := &ECond{C: unmark(x.C), A: unmark(x.A)}
+		if x.B != nil {
+			n.B = unmark(x.B)
+		}
+		return n
+	case *ELet:
+		return &ELet{Var: x.Var, Val: unmark(x.Val), Body: unmark(x.Body)}
+	}
+	return e
+}
+
+func renameSpec(spec *FuncSpec, m map[string]string) *FuncSpec {
+	n := *spec
+	n.Requires = renameClauses(spec.Requires, m)
+	n.Ensures = renameClauses(spec.Ensures, m)
+	n.Applies = renameClauses(spec.Applies, m)
+	n.ExitApplies = renameClauses(spec.ExitApplies, m)
+	n.CbRequires = renameClauses(spec.CbRequires, m)
+	n.CbEnsures = renameClauses(spec.CbEnsures, m)
+	n.Recovers = renameClauses(spec.Recovers, m)
+	n.Loops = map[int]*LoopSpec{}
+	for k, ls := range spec.Loops {
+		c := *ls
+		c.Invariants = renameClauses(ls.Invariants, m)
+		c.Assumed = renameClauses(ls.Assumed, m)
+		c.Steps = renameClauses(ls.Steps, m)
+		c.Applies = renameClauses(ls.Applies, m)
+		c.HeadApplies = renameClauses(ls.HeadApplies, m)
+		if ls.Decreases != nil {
+			d := renameClauses([]Clause{*ls.Decreases}, m)[0]
+			c.Decreases = &d
+		}
+		n.Loops[k] = &c
+	}
+	if len(spec.StoreChecks) > 0 {
+		n.StoreChecks = map[string][]Clause{}
+		for v, cs := range spec.StoreChecks {
+			nv := v
+			if to, ok := m[v]; ok {
+				nv = to
+			}
+			n.StoreChecks[nv] = renameClauses(cs, m)
+		}
+	}
+	return &n
+}
+
+func specIdents(spec *FuncSpec) map[string]bool {
+	out := map[string]bool{}
+	add := func(cs []Clause) {
+		for _, c := range cs {
+			identsOf(c.E, out)
+		}
+	}
+	add(spec.Requires)
+	add(spec.Ensures)
+	add(spec.Applies)
+	add(spec.ExitApplies)
+	add(spec.CbRequires)
+	add(spec.CbEnsures)
+	add(spec.Recovers)
+	for _, ls := range spec.Loops {
+		add(ls.Invariants)
+		add(ls.Assumed)
+		add(ls.Steps)
+		add(ls.Applies)
+		add(ls.HeadApplies)
+		if ls.Decreases != nil {
+			identsOf(ls.Decreases.E, out)
+		}
+	}
+	for v, cs := range spec.StoreChecks {
+		out[v] = true
+		add(cs)
+	}
+	for _, ac := range spec.AtCalls {
+		identsOf(ac.Clause.E, out)
+	}
+	return out
+}
+
+func localNames(fn *ssa.Function) []string {
+	seen := map[string]bool{}
+	var out []string
+	for _, b := range fn.Blocks {
+		for _, in := range b.Instrs {
+			if a, ok := in.(*ssa.Alloc); ok && a.Comment != "" && !seen[a.Comment] &&
+				!strings.ContainsAny(a.Comment, " .()[]{}") {
+				seen[a.Comment] = true
+				out = append(out, a.Comment)
+			}
+		}
+	}
+	sort.Strings(out)
+	return out
+}
+
+// adaptRenames runs right after VC generation (before the obligations are
+// discharged): results whose contract names unknown locals are regenerated
+// with those names read as unused locals of the function.
+func (run *checkRun) adaptRenames(eng *Engine, gen map[string]*FuncSpec, timeoutS int) {
+	for ri, r := range run.results {
+		if r.Ctx == nil || r.Ctx.root == nil {
+			continue
+		}
+		text := strings.Join(r.Ctx.bindErrors, "\n") + "\n" + r.Unsupported
+		unknown := map[string]bool{}
+		for _, m := range unknownNameRe.FindAllStringSubmatch(text, -1) {
+			unknown[m[1]] = true
+		}
+		// only when unknown names are the whole problem
+		if len(unknown) == 0 || len(unknown) > 3 {
+			continue
+		}
+		other := false
+		for _, b := range r.Ctx.bindErrors {
+			if !strings.Contains(b, "unknown name") {
+				other = true
+			}
+		}
+		if other || (r.Unsupported != "" && !strings.Contains(r.Unsupported, "unknown name")) {
+			continue
+		}
+		spec := eng.contracts.Funcs[r.Key]
+		if spec == nil {
+			continue
+		}
+		used := specIdents(spec)
+		params := map[string]bool{}
+		for _, p := range r.Ctx.root.Params {
+			params[p.Name()] = true
+		}
+		var cands []string
+		for _, n := range localNames(r.Ctx.root) {
+			if !used[n] && !params[n] {
+				cands = append(cands, n)
+			}
+		}
+		var names []string
+		for u := range unknown {
+			names = append(names, u)
+		}
+		sort.Strings(names)
+		if len(cands) < len(names) {
+			continue
+		}
+		// all injective assignments names -> cands (bounded)
+		var assigns []map[string]string
+		var rec func(i int, cur map[string]string, taken map[string]bool)
+		rec = func(i int, cur map[string]string, taken map[string]bool) {
+			if len(assigns) >= 120 {
+				return
+			}
+			if i == len(names) {
+				m := map[string]string{}
+				for k, v := range cur {
+					m[k] = v
+				}
+				assigns = append(assigns, m)
+				return
+			}
+			for _, c := range cands {
+				if taken[c] {
+					continue
+				}
+				taken[c] = true
+				cur[names[i]] = c
+				rec(i+1, cur, taken)
+				delete(cur, names[i])
+				taken[c] = false
+			}
+		}
+		rec(0, map[string]string{}, map[string]bool{})
+		tried := 0
+		for _, m := range assigns {
+			eng.contracts.Funcs[r.Key] = renameSpec(spec, m)
+			nr := eng.verifyFunction(r.Key, gen[r.Key])
+			eng.contracts.Funcs[r.Key] = spec
+			if nr.Unsupported != "" || nr.Ctx == nil || len(nr.Ctx.bindErrors) > 0 {
+				continue
+			}
+			tried++
+			if tried > 12 {
+				break
+			}
+			for _, o := range nr.Obligations {
+				if o.Result.Status == "" && !run.counts(nr, o) {
+					o.Result = SolverResult{Status: "skipped", Solver: "not-part-of-property"}
+				}
+			}
+			// cheap filter first: the invariants must at least be established
+			est := &FuncResult{Key: nr.Key, Ctx: nr.Ctx}
+			for _, o := range nr.Obligations {
+				if o.Result.Status == "" && strings.Contains(o.Name, "/inv_established/") {
+					est.Obligations = append(est.Obligations, o)
+				}
+			}
+			discharge([]*FuncResult{est}, dischargeOpts{timeoutS: 6, workers: 12})
+			bad := false
+			for _, o := range est.Obligations {
+				if o.Result.Status != "unsat" {
+					bad = true
+				}
+			}
+			if bad {
+				continue
+			}
+			cover := nr.Cover
+			nr.Cover = nil
+			discharge([]*FuncResult{nr}, dischargeOpts{timeoutS: timeoutS, workers: 12})
+			nr.Cover = cover
+			ok := true
+			for _, o := range nr.Obligations {
+				if run.counts(nr, o) && o.Result.Status != "unsat" {
+					ok = false
+					break
+				}
+			}
+			if !ok {
+				continue
+			}
+			var pairs []string
+			for _, n := range names {
+				pairs = append(pairs, n+" -> "+m[n])
+			}
+			run.results[ri] = nr
+			run.notes = append(run.notes, fmt.Sprintf("%s: the contract names locals that no longer exist; read as renamed locals (%s) its clauses bind and discharge every obligation of the function, which is therefore verified with the renamed contract", shortKey(r.Key), strings.Join(pairs, ", ")))
+			break
+		}
+	}
+}
